@@ -266,11 +266,17 @@ impl Property for C13 {
                         // much longer than its placeholder and out of range for the inner instruction
                         let n = t.urange(20, 120);
                         let acc = if t.flip() { "\u{e9}" } else { "e" };
-                        if crate::engine::gen_version() >= 4 && t.chance(1, 4) && !prog.items.iter().any(|i| matches!(i, Item::BankDef(_))) {
+                        if crate::engine::gen_version() >= 4 && t.chance(1, 4) {
                             // v4 (programs without banks; both added instructions are 16 bits): an earlier, correct line reads a position BEHIND the faulty block through a constant; with the
                             // block unresolved (no size) that distance is exactly 7: inside s4 AND u8, so the line is
                             // ambiguous for the guess, while the true value (>= 8) fits u8 only
-                            prog.items[at] = Item::Raw(format!("#align 8\nzqhere = $\nzqamb zqafter - zqhere + 5\nzqmac 0x1{}\nzqafter = $", "0".repeat(n)));
+                            // (a program of its own: the two added 16-bit instructions would move the layout of a generated one)
+                            prog.items.clear();
+                            for k in 0..t.draw(4) {
+                                prog.items.push(Item::Data { width: Some(8), elems: vec![lit_of(k as u64 + 1)] });
+                            }
+                            fault_item = prog.items.len();
+                            prog.items.push(Item::Raw(format!("#align 8\nzqhere = $\nzqamb zqafter - zqhere + 5\nzqmac 0x1{}\nzqafter = $", "0".repeat(n))));
                             fault_line_offset = 3;
                             prog.items.push(Item::Raw(format!("#ruledef zqm\n{{\n    zqemit {{x: u8}} => 0x77 @ x\n    zqmac {{x}} => asm {{ zqemit {{x}} }} ; {}\n    zqamb {{v: s4}} => 0xb @ v @ 0x00\n    zqamb {{v: u8}} => 0x80 @ v\n}}", acc)));
                             ctx.label("fault:asm-block-argument-out-of-range:position-behind-read-before");
